@@ -221,6 +221,28 @@ theorem c12_depth_guard_state : XmlConsts.callbackStackDynamic = true ∧
     (∀ d m, XmlConsts.depth_exceeded d m ≠ 0 ↔ d ≥ m) ∧ (∀ m, XmlConsts.effective_max_depth m = effMaxDepth m) :=
   ⟨callback_stack_dynamic, depth_test_bridge, fun m => by rw [effective_max_depth_bridge]; rfl⟩
 
+/-- C12: a depth refusal is sticky.  When the depth guard of `aws_xml_node_traverse` fires, the failure is recorded
+in `parser->error` (in the current source: the block goes through the `error:` label, which sets it - generated
+shape check), not only in that call's return value; a callback that ignores the failing call and returns success
+(`ignoreFailure`) gets the same state back, and every enclosing child loop that finds `parser->error` set stops at
+once and returns failure - so a document deeper than the limit cannot be turned into a successful parse by what a
+callback returns, and nothing is reported after the refusal. -/
+theorem c12_depth_refusal_sticky :
+    XmlConsts.depthRefusalRecorded = true ∧
+    (∀ (loop : PState → List Nat → Nat → Except Fault (PState × Bool)) (st : PState) (path : List Nat),
+      st.depth ≥ st.maxDepth → traverseWith loop st path = .ok ({ st with error := true, lastErr := .invalidXml }, false)) ∧
+    (∀ (ign : List Nat → Bool) (trav : PState → List Nat → Except Fault (PState × Bool)) (st st' : PState) (path : List Nat) (ok : Bool),
+      trav st path = .ok (st', ok) → ignoreFailure ign trav st path = .ok (st', ok || ign path)) ∧
+    (∀ (doc : Bytes) (prog : Prog) (fuel : Nat) (st : PState) (path : List Nat) (idx : Nat), st.error = true →
+      nodeLoop doc prog (fuel + 1) st path idx = .ok ({ st with depth := st.depth - 1 }, false)) ∧
+    (∀ (doc : Bytes) (prog : Prog) (ign : List Nat → Bool) (fuel : Nat) (st : PState) (path : List Nat) (idx : Nat), st.error = true →
+      nodeLoopIgn doc prog ign (fuel + 1) st path idx = .ok ({ st with depth := st.depth - 1 }, false)) := by
+  refine ⟨by decide, ?_, ?_, ?_, ?_⟩
+  · intro loop st path h; simp [traverseWith, h]
+  · intro ign trav st st' path ok h; simp [ignoreFailure, h, bind, Except.bind, pure, Except.pure]
+  · intro doc prog fuel st path idx h; rw [nodeLoop]; simp [h]
+  · intro doc prog ign fuel st path idx h; rw [nodeLoopIgn]; simp [h]
+
 /-- verdict of a run, for the concrete examples -/
 def verdict : Except Fault Result → Option (Bool × Nat)
   | .ok r => some (r.ok, r.events.length)
